@@ -139,4 +139,28 @@ package capacity
 //@   assert-at call Plot only-a-space-moved-to-plotting-is-plotted: inState(sk, 1, sid) && wsAt(sk, 1, sid) == ws && ws.state == 1
 //@   assert-at call Unlock#2 registered-becomes-plotting: inState(sk, 1, sid) && wsAt(sk, 1, sid) == ws && ws.state == 1 && !inState(sk, 0, sid)
 //@   assert-at call Unlock#1 not-registered-is-not-plotted: !inState(sk, 1, sid)
+//@   assert-at call Unlock#3 back-to-registered-exactly-when-the-plot-is-incomplete: (ws.state == 0) == flt(lastresult("Progress"), fconst("100"))
 //@   assert-at call Unlock#3 plot-end-transition: !inState(sk, 1, sid) && ((inState(sk, 0, sid) && ws.state == 0) || (inState(sk, 3, sid) && ws.state == 3 && qws.wouldMining) || (inState(sk, 2, sid) && ws.state == 2 && !qws.wouldMining))
+
+// ---- batch actions: every space selected by the caller's flags gets exactly the single-space action (C09)
+//@ func (*SpaceKeeper).PlotMultiWS
+//@   assert-at call getWsByFlags selects-by-the-flags-it-was-given: arg0 == sk.workSpaceList && arg1 == old(flags)
+//@   assert-at call PlotWS applies-the-action-to-each-selected-space: arg1 == lastresult("String")
+//@   assert-at call String id-of-the-selected-space: arg0 == lastresult("getWsByFlags")[#rangeindex + 1].id
+//@ func (*SpaceKeeper).MineMultiWS
+//@   assert-at call getWsByFlags selects-by-the-flags-it-was-given: arg0 == sk.workSpaceList && arg1 == old(flags)
+//@   assert-at call MineWS applies-the-action-to-each-selected-space: arg1 == lastresult("String")
+//@   assert-at call String id-of-the-selected-space: arg0 == lastresult("getWsByFlags")[#rangeindex + 1].id
+//@ func (*SpaceKeeper).StopMultiWS
+//@   assert-at call getWsByFlags selects-by-the-flags-it-was-given: arg0 == sk.workSpaceList && arg1 == old(flags)
+//@   assert-at call StopWS applies-the-action-to-each-selected-space: arg1 == lastresult("String")
+//@   assert-at call String id-of-the-selected-space: arg0 == lastresult("getWsByFlags")[#rangeindex + 1].id
+//@ func (*SpaceKeeper).RemoveMultiWS
+//@   assert-at call getWsByFlags selects-by-the-flags-it-was-given: arg0 == sk.workSpaceList && arg1 == old(flags)
+//@   assert-at call RemoveWS applies-the-action-to-each-selected-space: arg1 == lastresult("String")
+//@   assert-at call String id-of-the-selected-space: arg0 == lastresult("getWsByFlags")[#rangeindex + 1].id
+//@ func (*SpaceKeeper).DeleteMultiWS
+//@   attr effect:fs.remove
+//@   assert-at call getWsByFlags selects-by-the-flags-it-was-given: arg0 == sk.workSpaceList && arg1 == old(flags)
+//@   assert-at call DeleteWS applies-the-action-to-each-selected-space: arg1 == lastresult("String")
+//@   assert-at call String id-of-the-selected-space: arg0 == lastresult("getWsByFlags")[#rangeindex + 1].id
